@@ -564,13 +564,18 @@ def run(chk, args):
     chk.assumptions += ["option names are ASCII strings, option values and struct defaults are Python ints",
                         "struct file offsets are non-negative; image and struct files are readable",
                         "python is not run with -O (the assert statements of boot() are the guards of its domain)"]
+    import time as _t
+    t0 = _t.time()
+    timing = lambda what: os.environ.get("C20_TIMING") and print("[C20 %6.1fs] %s" % (_t.time() - t0, what))
     chk.regenerate(UNITS)
+    timing("regenerated")
     built = chk.prove(extra_targets=["Model/Boot.vo", "Generated/GenBootImage.vo"])
     if not built:
         ok, log = chk.build(["Model/Boot.vo", "Generated/GenBootImage.vo"])
         if not ok:
             chk.model_ok = False
             chk.oblige("build:Model/Boot.vo", False, log[-1500:])
+    timing("proved")
     # ---- cases
     rng = chk.rng
     corpus = os.path.join(lib.VERIF, "corpus", "C20.json")
@@ -625,6 +630,7 @@ def run(chk, args):
     for i in range(k):
         for j, o in enumerate(parts[i]):
             outs[i + j * k] = o
+    timing("implementation ran")
     presets_seen = None
     good = []
     for h, o in zip(histories, outs):
@@ -674,6 +680,7 @@ def run(chk, args):
         chk.sample(dict(history=strip(h), implementation=[
             dict(result=c["result"][0], datagram_lengths=[len(d) // 2 for d in c["datagrams"]],
                  connects=c["connects"]) for c in o["calls"]]))
+    timing("oracle done")
     # ---- model
     if chk.model_ok and good:
         try:
@@ -708,6 +715,7 @@ def run(chk, args):
                 chk.disagree(what + note, dict(history=strip(h)))
         except RuntimeError as e:
             chk.oblige("correspondence:model-evaluates", False, str(e))
+    timing("model compared")
     chk.coverage["rule"] = (
         "histories of 1-4 boots in one process (boot() and MachineController.boot), images: every block boundary "
         "k*1024-4/0/+4 for k=1..32, random multiples of 4 in [512,4200], the bundled scamp.boot, literal bytes, sizes "
